@@ -675,12 +675,19 @@ func prefill(ts *typeSpec, v reflect.Value, doc *gt.Node, seed int) {
 	for i, f := range ts.Fields {
 		fv := v.Field(i)
 		supplied := false
+		// a typed map that the document supplies as a mapping (possibly the empty one) is filled INTO:
+		// the entries it already holds stay, as with the YAML library's decoder
+		suppliedMap := false
 		if doc != nil && f.Inline == "" && !f.skipped() {
 			if x, ok := doc.Get(f.primary()); ok && x.Kind != gt.Null {
 				supplied = true
+				suppliedMap = x.Kind == gt.Map
 			}
 			for _, a := range f.Aliases {
 				if x, ok := doc.Get(a); ok && x.Kind != gt.Null {
+					if !supplied {
+						suppliedMap = x.Kind == gt.Map
+					}
 					supplied = true
 				}
 			}
@@ -702,7 +709,7 @@ func prefill(ts *typeSpec, v reflect.Value, doc *gt.Node, seed int) {
 			fv.Set(reflect.ValueOf([]string{"pre"}))
 		case f.Kind == "ints" && !supplied:
 			fv.Set(reflect.ValueOf([]int{-1}))
-		case f.Kind == "mss" && !supplied:
+		case f.Kind == "mss" && (!supplied || suppliedMap):
 			fv.Set(reflect.ValueOf(map[string]string{"pre": "p"}))
 		case f.Kind == "struct":
 			var sub *gt.Node
@@ -996,13 +1003,28 @@ type EmbNoRest struct {
 	Label     string `yaml:"label"`
 }
 
+// EmbPub is an EXPORTED embedded type: the embedded field itself is visible to the unmarshaler as the
+// inline field, and one of its fields (Name) is hidden behind the outer struct's field of the same Go
+// name while its key (`pubname`) stays distinct.
+type EmbPub struct {
+	Key   string   `yaml:"key" aliases:"id,identifier"`
+	Tags  []string `yaml:"tags,omitempty"`
+	Count int      `yaml:"count"`
+	Name  string   `yaml:"pubname"`
+}
+
+type EmbPubOuter struct {
+	EmbPub `yaml:",inline"`
+	Name   string `yaml:"name"`
+}
+
 type EmbNested struct {
 	Outer string         `yaml:"outer"`
 	Sub   *EmbNoRest     `yaml:"sub"`
 	Rest  map[string]any `yaml:",inline"`
 }
 
-var recEmb = ev.New("TestPropEmbeddedInlineStructs", "three declared target types that embed an unexported struct type tagged `,inline` (with and without a catch-all map, and nested behind a pointer) x documents over any subset of the promoted fields' keys, their aliases, the outer fields' keys and unknown keys, well-typed values; oracle 1 = the stated rule computed by hand (field <- its key, else its first present alias; leftovers to the catch-all, in order), oracle 2 (no alias key in the document) = yaml.v3's own decoder into the same type; non-trivial = a promoted field is set and an unknown key is present; distinct by document")
+var recEmb = ev.New("TestPropEmbeddedInlineStructs", "four declared target types that embed a struct type tagged `,inline` (unexported with and without a catch-all map, nested behind a pointer, and an exported one with a field hidden behind an outer field of the same Go name) x documents over any subset of the promoted fields' keys, their aliases, the outer fields' keys and unknown keys, well-typed values; oracle 1 = the stated rule computed by hand (field <- its key, else its first present alias; leftovers to the catch-all, in order), oracle 2 (no alias key in the document) = yaml.v3's own decoder into the same type; non-trivial = a promoted field is set and an unknown key is present; distinct by document")
 
 func TestPropEmbeddedInlineStructs(t *testing.T) {
 	ev.Check(t, 3000, 100000, func(t *rapid.T) {
@@ -1112,10 +1134,31 @@ func TestPropEmbeddedInlineStructs(t *testing.T) {
 				t.Fatalf("ordered.Unmarshal differs from yaml.v3's decoder into %T: %s\nyaml.v3: %s\nordered: %s\n%s", got, d, rj, gj, yb)
 			}
 		}
-		kind := rapid.IntRange(0, 2).Draw(t, "type")
+		kind := rapid.IntRange(0, 3).Draw(t, "type")
 		var nt bool
 		var show string
 		switch kind {
+		case 3:
+			m, vals := genDoc("d", []string{"name", "pubname"})
+			var got EmbPubOuter
+			if err := ordered.Unmarshal(m, &got); err != nil {
+				t.Fatalf("Unmarshal into %T: %v", got, err)
+			}
+			consumed := map[string]bool{}
+			c := expectCommon(vals, consumed)
+			want := EmbPubOuter{EmbPub: EmbPub{Key: c.Key, Tags: c.Tags, Count: c.Count}}
+			if v, ok := vals["name"]; ok {
+				want.Name = v.(string)
+			}
+			if v, ok := vals["pubname"]; ok {
+				want.EmbPub.Name = v.(string)
+			}
+			if !reflect.DeepEqual(got, want) {
+				t.Fatalf("Unmarshal into EmbPubOuter: got %+v, the rule gives %+v\ndocument keys: %v", got, want, vals)
+			}
+			differential(m, vals, func() any { return &EmbPubOuter{} }, &got)
+			nt = got.Key != "" && len(vals) > 2
+			show = fmt.Sprint(vals)
 		case 0:
 			m, vals := genDoc("a", []string{"name"})
 			var got EmbWithRest
